@@ -217,3 +217,28 @@ def run_family(chk, pid, fam, **kw):
     chk.assumptions.append('E-UNI: the biodivine libraries are used as they are (real BDD operations); the symbolic update functions reported by SymbolicAsyncGraph::get_symbolic_fn_update define the transition system of a colour')
     for which, phis in fam:
         run_plain_family(chk, pid, which, phis, **kw)
+
+
+def sweep(chk, pid, formulas, which=('U2',), label='bounded-exhaustive small formulas', entry='ext_dirty', check_unit=False, group=40, signature='sweep'):
+    """E-UNI on many small formulas: one obligation per group of formulas (all must equal their semantics)"""
+    for inst in instances(list(which)):
+        fs = [f for f in formulas if not (S.labels(f)[0] | S.labels(f)[1]) - set(inst.ctx)]
+        for i in range(0, len(fs), group):
+            chunk = fs[i:i + group]
+            sess = Session(inst, 3, [{'phis': [f], 'entry': entry} for f in chunk])
+            bad = 0; t0 = time.time(); worst = None
+            for j, f in enumerate(chunk):
+                b = sess.first(j)
+                name = f'{pid}/E-UNI sweep {inst.name}: {S.show(f)}'
+                if b is None:
+                    bad += 1; chk.obligation(name, 'E-UNI', 'violated'); chk.violation(name, 'error-on-valid-input', {'instance': inst.name, 'aeon': inst.aeon, 'formula': S.show(f), 'answer': sess.runs[j]}, f'valid formula {S.show(f)} answered {sess.runs[j]}'); continue
+                dec = sess.dec; R = sess.dec_for(j).bdd(b)
+                v = uni.decide([dec.unit, R != sess.sem(f)], 60000); chk.queries += 1
+                if v.status == 'sat': bad += 1; confirm(chk, pid, sess, f, b, v.model, name, signature, rdec=sess.dec_for(j))
+                elif v.status != 'unsat': chk.obligation(name, 'E-UNI', 'timeout', v.seconds)
+                if check_unit:
+                    v2 = uni.decide([z3.Not(dec.unit), R], 60000); chk.queries += 1
+                    if v2.status == 'sat': bad += 1; check_inside_unit(chk, pid, sess, f, b, name + ' [inside unit]', rdec=sess.dec_for(j))
+            if not bad:
+                chk.obligation(f'{pid}/E-UNI {label} on {inst.name}: formulas {i}..{i + len(chunk) - 1} ({S.show(chunk[0])} .. {S.show(chunk[-1])}) == semantics' + (' and inside the unit set' if check_unit else ''), 'E-UNI', 'holds', time.time() - t0, True,
+                               {'formulas': len(chunk), 'first': S.show(chunk[0]), 'last': S.show(chunk[-1]), 'instance': inst.name})
